@@ -1,4 +1,5 @@
 import MlModel.Lemmas.AggRollingSpec
+import MlModel.Lemmas.AggRollingHist
 import MlModel.Properties.C01.Rolling
 /-!
 # C07 — values equal their textbook definitions, "rolling" metric family
@@ -116,6 +117,39 @@ theorem C07_rolling_counter (e : Expr Int) (k : Int) :
     counter.result (e.eval counter) k = e.data.count k := by
   rw [C01.C01_rolling_counter]
   exact CounterS.get_ofList _ _
+
+/-! ## Histogram -/
+
+/-- whatever the history: bin `i` holds the total weight of the examples whose value lies in
+`[e_i, e_{i+1})` (the right-most bin also takes `e_n`; NaN is in no bin), and the edges are returned -/
+theorem C07_rolling_histogram (edges : List Rat) (e : Expr (F × Rat)) :
+    (histogram edges).result (e.eval (histogram edges))
+      = ((List.range (edges.length - 1)).map fun i =>
+            rsum ((e.data.filter fun p =>
+              inBin (edges.getD i 0) (edges.getD (i + 1) 0) (i + 1 == edges.length - 1) p.1).map (·.2)),
+         edges) := by
+  rw [C01.C01_rolling_histogram]
+  rfl
+
+/-- for strictly increasing edges the bins partition `[e₀, eₙ]`: a value inside the outer edges
+lies in exactly one bin, a value outside in none -/
+theorem C07_rolling_histogram_partition (edges : List Rat) (hinc : StrictInc edges)
+    (hlen : 2 ≤ edges.length) (v : Rat) :
+    (edges.getD 0 0 ≤ v ∧ v ≤ edges.getD (edges.length - 1) 0 →
+      ∃ i, i + 1 < edges.length ∧ inBinAt edges i v = true ∧
+        ∀ j, j + 1 < edges.length → inBinAt edges j v = true → j = i) ∧
+    (v < edges.getD 0 0 ∨ edges.getD (edges.length - 1) 0 < v →
+      ∀ i, i + 1 < edges.length → inBinAt edges i v = false) := by
+  constructor
+  · intro ⟨hlo, hhi⟩
+    obtain ⟨i, hi, hb⟩ := inBinAt_exists hlen hlo hhi
+    exact ⟨i, hi, hb, fun j hj hbj => inBinAt_unique hinc hj hi hbj hb⟩
+  · intro hout i hi
+    exact inBinAt_outside hinc hi hout
+
+/-- (non-vacuity) edges `0 < 1 < 3` -/
+example : StrictInc [0, 1, 3] ∧ inBinAt [0, 1, 3] 1 3 = true ∧ inBinAt [0, 1, 3] 0 1 = false := by
+  refine ⟨⟨by norm_num, by norm_num, trivial⟩, by decide +kernel, by decide +kernel⟩
 
 /-! ## MinMaxAndCount -/
 
